@@ -120,3 +120,16 @@ Example W_reachable :
   reachable W_orphan = map nm ["Query"; "Int"; "T"] /\
   reachable (erase W_orphan []) = map nm ["Query"; "Int"].
 Proof. vm_compute. repeat split; reflexivity. Qed.
+
+(** composition with C04: the hypotheses of [C13_C04_type_info_eq] hold on C04's own example schema
+    and on the C13 witness in C04's encoding; NewTypeInfo succeeds on C04's example document (so the
+    equation is not None = None) and erasure really deletes something on the witness *)
+From ApiFu Require Vld.Ast Vld.TypeInfoModel Vld.Witness Feat.FeaturesVld.
+Example C04_hypotheses :
+  FeaturesVld.vok Witness.ex_schema = true /\
+  (match TypeInfoModel.type_info true Witness.ex_schema nil Witness.ex_valid with Some _ => true | None => false end) = true /\
+  FeaturesVld.vok FeaturesVld.VW = true /\
+  List.length (Vld.Ast.s_types (FeaturesVld.verase FeaturesVld.VW nil)) = 6%nat /\
+  List.length (Vld.Ast.s_types FeaturesVld.VW) = 7%nat /\
+  (match TypeInfoModel.type_info true FeaturesVld.VW nil FeaturesVld.VD with Some _ => true | None => false end) = true.
+Proof. vm_compute. repeat split; reflexivity. Qed.
